@@ -315,14 +315,22 @@ def parse_file(path):
                 parse_body(f, lines[i+1:j], errors)
                 consts[nm] = f
             i = j + 1; continue
-        m = re.match(r'^(alloc\d+) \(.*size: (\d+).*\) \{$', ln)
+        m = re.match(r'^(alloc\d+) \((?:static: ([\w:]+), )?.*size: (\d+).*\) \{\}$', ln)
+        if m:
+            allocs[m.group(1)] = {'static': m.group(2), 'size': int(m.group(3)), 'data': []}
+            i += 1; continue
+        m = re.match(r'^(alloc\d+) \((?:static: ([\w:]+), )?.*size: (\d+).*\) \{$', ln)
         if m:
             j = i + 1
             data = []
             while j < n and lines[j] != '}':
                 data.append(lines[j]); j += 1
-            allocs[m.group(1)] = data
+            allocs[m.group(1)] = {'static': m.group(2), 'size': int(m.group(3)), 'data': data}
             i = j + 1; continue
+        m = re.match(r'^(alloc\d+) \((fn|static): (.+)\)$', ln)
+        if m:
+            allocs[m.group(1)] = {'static': m.group(3), 'size': 0, 'data': []}
+            i += 1; continue
         i += 1
     return funcs, consts, allocs, errors
 
